@@ -35,6 +35,11 @@ pub struct Plan {
     pub target: usize,
     pub edit: String,
     pub ntx: usize,
+    /// state of the receiving nodes: "synced" (hold the chain from genesis up to the parent),
+    /// "joined-mid-chain" (the parent is the first block they ever received: total supply not
+    /// loaded, ledger checks off) or "fresh-genesis" (empty node, the edited block is block #1)
+    #[serde(default)]
+    pub receiver: String,
 }
 
 fn gen(seed: u64, tier: Tier) -> Plan {
@@ -46,6 +51,7 @@ fn gen(seed: u64, tier: Tier) -> Plan {
         target: rng.range(1, depth as u64) as usize,
         edit: rng.pick(EDITS).to_string(),
         ntx: rng.range(2, 5) as usize,
+        receiver: rng.pick(&["synced", "synced", "joined-mid-chain", "fresh-genesis"]).to_string(),
     }
 }
 
@@ -60,7 +66,7 @@ impl Scenario for C06 {
     fn meta(&self) -> Meta {
         Meta {
             level: "exploration",
-            rule: "run = honest history of 2..8/15 blocks (2-5 zero- and non-zero-fee payments each); the block at a seeded position is edited by one of 10 edits that keep it decodable: swap two transactions, replace a transaction by another valid one with the same fee, add / remove a zero-fee transaction, duplicate the last transaction, change a transaction payload (all without touching the signed header, so the hash is unchanged), re-sign the header with another key, change creator / timestamp / treasury without re-signing. Edited block -> node A, original -> node B, then the rest of the history to both. Oracles: (1) a block whose hash equals the original's but whose ordered transaction list differs is never accepted; (2) whenever A and B report the same tip hash their spendable sets are identical; (3) a header edit either changes the hash or the block is rejected. distinct_nontrivial = distinct (edit, block position, depth) where the edit applied and hashes were compared.",
+            rule: "run = honest history of 2..8/15 blocks (2-5 zero- and non-zero-fee payments each); the block at a seeded position is edited by one of 10 edits that keep it decodable: swap two transactions, replace a transaction by another valid one with the same fee, add / remove a zero-fee transaction, duplicate the last transaction, change a transaction payload (all without touching the signed header, so the hash is unchanged), re-sign the header with another key, change creator / timestamp / treasury without re-signing. Edited block -> node A, original -> node B, then the rest of the history to both. The receiving nodes are synced from genesis, or joined mid-chain (the parent is the first block they ever saw, so the total supply is not loaded and ledger-dependent checks are off), or fresh (the edited block is block #1 itself). Oracles: (1) a block whose hash equals the original's but whose ordered transaction list differs is never accepted; (2) whenever A and B report the same tip hash their spendable sets are identical; (3) a header edit either changes the hash or the block is rejected. distinct_nontrivial = distinct (edit, block position, depth) where the edit applied and hashes were compared.",
             real: &["Block::deserialize_from_net/generate/generate_merkle_root/validate", "MerkleTree", "Blockchain::add_block"],
             stubs: &["SimIo", "SimConfig", "vendored ahash"],
             assumptions: &["genesis period >> depth"],
@@ -97,15 +103,46 @@ impl Scenario for C06 {
                 return r;
             }
         };
-        let tidx = chain[plan.target - 1];
+        let fresh_genesis = plan.receiver == "fresh-genesis";
+        let mid_chain = plan.receiver == "joined-mid-chain" && plan.target >= 2;
+        let tidx = if fresh_genesis { 0 } else { chain[plan.target - 1] };
         let orig = w.block(tidx);
-        let parent_idx = *w.by_hash.get(&w.recs[tidx].parent).unwrap();
-        let pledger = w.ledger_at(parent_idx);
+        let parent_idx = if fresh_genesis { 0 } else { *w.by_hash.get(&w.recs[tidx].parent).unwrap() };
+        let pledger = if fresh_genesis { RefLedger::default() } else { w.ledger_at(parent_idx) };
         // build the edited block
         let mut e = orig.clone();
         let other = w.keys[w.params.n_users + 1].clone();
         let mut applied = true;
-        match plan.edit.as_str() {
+        let edit_kind = if fresh_genesis {
+            // block #1 carries issuance transactions only: the list edits apply to those
+            match plan.edit.as_str() {
+                "swap-two-txs" | "replace-tx-equal-fee" => "genesis-swap",
+                "remove-zero-fee-tx" | "add-zero-fee-tx" => "genesis-remove",
+                "duplicate-last-tx" => "genesis-duplicate",
+                other => other,
+            }
+        } else {
+            plan.edit.as_str()
+        };
+        match edit_kind {
+            "genesis-swap" => {
+                if e.transactions.len() >= 2 && e.transactions[0].signature != e.transactions[1].signature {
+                    e.transactions.swap(0, 1);
+                } else {
+                    applied = false;
+                }
+            }
+            "genesis-remove" => {
+                if e.transactions.len() >= 2 {
+                    e.transactions.pop();
+                } else {
+                    applied = false;
+                }
+            }
+            "genesis-duplicate" => match e.transactions.last().cloned() {
+                Some(t) => e.transactions.push(t),
+                None => applied = false,
+            },
             "swap-two-txs" => {
                 // two non-fee, non-GT transactions
                 let idxs: Vec<usize> = e
@@ -168,7 +205,7 @@ impl Scenario for C06 {
                     None => applied = false,
                 }
             }
-            "change-tx-payload" => match e.transactions.iter().position(|t| t.transaction_type == TransactionType::Normal) {
+            "change-tx-payload" => match e.transactions.iter().position(|t| t.transaction_type == TransactionType::Normal || fresh_genesis) {
                 Some(i) => e.transactions[i].data.push(0x42),
                 None => applied = false,
             },
@@ -207,11 +244,19 @@ impl Scenario for C06 {
         let mut a = Node::new(&w.cfg, &w.keys[1].clone());
         let mut b = Node::new(&w.cfg, &w.keys[1].clone());
         for n in [&mut a, &mut b] {
-            let _ = n.add_block_bytes(&w.recs[0].bytes.clone());
-            for i in &chain[..plan.target - 1] {
-                let _ = n.add_block_bytes(&w.recs[*i].bytes.clone());
+            if fresh_genesis {
+                // nothing: the edited / original block #1 is the first thing the node sees
+            } else if mid_chain {
+                // the parent is the first block this node ever receives (it joined here)
+                let _ = n.add_block_bytes(&w.recs[parent_idx].bytes.clone());
+            } else {
+                let _ = n.add_block_bytes(&w.recs[0].bytes.clone());
+                for i in &chain[..plan.target - 1] {
+                    let _ = n.add_block_bytes(&w.recs[*i].bytes.clone());
+                }
             }
         }
+        r.probe(if fresh_genesis { "receiver_fresh_genesis" } else if mid_chain { "receiver_joined_mid_chain" } else { "receiver_synced" });
         let oa = a.add_block_bytes(&ebytes).as_ref().map(outcome_of);
         let ob = b.add_block_bytes(&w.recs[tidx].bytes.clone()).as_ref().map(outcome_of);
         trace.str(&format!("{:?}{:?}", oa, ob));
@@ -255,7 +300,8 @@ impl Scenario for C06 {
                     );
                 }
             }
-            for i in &chain[plan.target..] {
+            let rest: &[usize] = if fresh_genesis { &chain[..] } else { &chain[plan.target..] };
+            for i in rest {
                 let _ = a.add_block_bytes(&w.recs[*i].bytes.clone());
                 let _ = b.add_block_bytes(&w.recs[*i].bytes.clone());
                 if a.tip().1 == b.tip().1 && a.utxo_keys() != b.utxo_keys() {
@@ -271,7 +317,7 @@ impl Scenario for C06 {
             }
         }
         let mut d = Digest::new();
-        d.str(&plan.edit).u64(plan.target as u64).u64(plan.depth as u64);
+        d.str(&plan.edit).u64(plan.target as u64).u64(plan.depth as u64).str(&plan.receiver);
         r.nontrivial.push(d.get());
         r.probe(if same_hash { "edit_kept_hash" } else { "edit_changed_hash" });
         trace.bytes(&a.tip().1).bytes(&b.tip().1);
